@@ -7,6 +7,10 @@
 #![allow(unused_imports, unused_variables, dead_code, unused_mut, unused_assignments, non_snake_case, unused_parens, unreachable_code, unreachable_patterns)]
 use vstd::prelude::*;
 use vstd::std_specs::cmp::PartialEqSpec;
+#[allow(unused_imports)]
+use std::collections::{HashMap, HashSet};
+#[allow(unused_imports)]
+use std::collections::hash_map::Entry;
 verus! {
 
 pub mod ax {
@@ -104,6 +108,10 @@ impl TaskMap {
     pub fn get<Q: StrKey + ?Sized>(&self, k: &Q) -> (r: Option<&String>)
         ensures match r { Some(v) => self@.dom().contains(k.key_view()) && v@ == self@[k.key_view()], None => !self@.dom().contains(k.key_view()) }
     { unimplemented!() }
+    #[verifier::external_body]
+    pub fn is_empty(&self) -> (r: bool) ensures r == (self@.dom() =~= Set::<Seq<char>>::empty()) { unimplemented!() }
+    #[verifier::external_body]
+    pub fn len(&self) -> (r: usize) ensures r == self@.dom().len() { unimplemented!() }
     #[verifier::external_body]
     pub fn contains_key<Q: StrKey + ?Sized>(&self, k: &Q) -> (r: bool)
         ensures r == self@.dom().contains(k.key_view())
